@@ -76,9 +76,12 @@ def call_forms(fn, args, exp):
         cols = [np.array([a[j] for a in args], dtype=np.int64) for j in range(ar)]
         for form, shp in (("array", (n,)), ("array2d", (2, n // 2) if n % 2 == 0 and n else (n,))):
             try:
-                got = np.asarray(fn(*[c.reshape(shp) for c in cols]))
+                argv = [c.reshape(shp).copy() for c in cols]
+                got = np.asarray(fn(*argv))
                 ok_shape = got.shape == tuple(shp)
                 got = [int(v) for v in got.ravel()]
+                if not all(np.array_equal(a_, c.reshape(shp)) for a_, c in zip(argv, cols)):    # ArgumentsUnchanged
+                    got = ["argument modified"] * n
             except Exception as ex:
                 ok_shape, got = True, [f"raised {type(ex).__name__}: {ex}"[:160]] * n
             for i in range(n):
@@ -231,11 +234,15 @@ def replay_err_dtypes_one(ctx, us, vs, exp, ka, kb, lay):
     return [{"stage": "R", "op": "errdt", "w": 62, "u": us, "v": vs, "form": f"{ka} x {kb} {lay}", "exp": exp, "got": got}]
 
 
-def calls_cfg(ks, dev=False, emit=True):
-    defs = {"Dev": tlc.tla({"MemoTableOneShort": bool(dev)})}
+CALLS_DEVS = {"MemoTableOneShort": "ArgumentOnly", "ConvInPlace": "ArgumentsUnchanged", "ResultBufferReused": "EarlierResultsUnchanged"}
+
+
+def calls_cfg(ks, dev=None, emit=True):
+    dev = "MemoTableOneShort" if dev is True else dev
+    defs = {"Dev": tlc.tla({k: (k == dev) for k in CALLS_DEVS})}
     cfg = tlc.cfg_text(constants={"Ks": tlc.tla(set(ks)), "Fns": tlc.tla({"g2b", "b2g"}), "Forms": tlc.tla({"array", "scalar"}),
                                   "Tops": tlc.tla({"below", "pow2", "above"})},
-                       defs=defs, invariants=["TypeOK", "ArgumentOnly"], view="View", action_constraints=["Emit"] if emit else [])
+                       defs=defs, invariants=["TypeOK", "ArgumentOnly", "ArgumentsUnchanged", "EarlierResultsUnchanged"], view="View", action_constraints=["Emit"] if emit else [])
     return cfg, defs
 
 
@@ -243,11 +250,12 @@ def history_stage(ctx, runs, fut_model):
     """stage H: conversion-call histories in fresh interpreters"""
     import random
     from concurrent.futures import ThreadPoolExecutor
-    r, rdev = fut_model
+    r, rdevs = fut_model
     ctx.account(r, GCALLS, "conversion histories")
-    if rdev.violated != "ArgumentOnly":
-        raise tlc.TlcError(f"GrayCalls.tla: Dev.MemoTableOneShort was expected to violate ArgumentOnly, TLC reported {rdev.violated}")
-    ctx.notes.setdefault("deviations_refuted_by_model", {})["MemoTableOneShort"] = rdev.violated
+    for d, rdev in zip(CALLS_DEVS, rdevs):
+        if rdev.violated != CALLS_DEVS[d]:
+            raise tlc.TlcError(f"GrayCalls.tla: Dev.{d} was expected to violate {CALLS_DEVS[d]}, TLC reported {rdev.violated}")
+        ctx.notes.setdefault("deviations_refuted_by_model", {})[d] = rdev.violated
     lookup = {"g2b": {}, "b2g": {}}
     for n, rr in runs.items():
         if n.startswith("gray"):
@@ -369,7 +377,8 @@ def run(ctx):
                  ("gray-basis17", lambda: run_gray(17, "basis", emit=True, additive=True, nrand=nrand, seed=ctx.seed + 2))]
     ks = list(range(1, 18)) if thorough else KS_QUICK
     jobs += [("calls", lambda: tlc.run(GCALLS, calls_cfg(ks)[0], defs=calls_cfg(ks)[1], coverage=True, timeout=900)),
-             ("calls-dev", lambda: tlc.run(GCALLS, calls_cfg(ks, dev=True, emit=False)[0], defs=calls_cfg(ks, dev=True)[1], timeout=900))]
+             ("calls-dev", lambda: [tlc.run(GCALLS, calls_cfg(ks[:3], dev=d, emit=False)[0], defs=calls_cfg(ks[:3], dev=d)[1], timeout=900)
+                                    for d in CALLS_DEVS])]
     devjobs = [("G2BOnly16Bits", lambda: run_gray(62, "basis", dev=("G2BOnly16Bits",), nrand=2), "InverseLaw"),
                ("B2GShiftMissing", lambda: run_gray(4, "exh", dev=("B2GShiftMissing",)), "InverseLaw"),
                ("ErrCountsFirstOperand", lambda: run_gray(3, "pairs", dev=("ErrCountsFirstOperand",)), "HammingLaw")]
